@@ -16,8 +16,9 @@ from . import lang as L
 
 class LoopAnn:
     """loop annotation: invariant(view, i) [, variant(view)] for loop #ordinal of a function"""
-    def __init__(self, name, invariant, variant=None, keep=(), after_break=None):
+    def __init__(self, name, invariant, variant=None, keep=(), after_break=None, elem=None):
         self.name, self.invariant, self.variant, self.keep, self.after_break = name, invariant, variant, keep, after_break
+        self.elem = dict(elem or {})     # element type of lists that are empty at loop entry: {'bits': 'bool'}
 
 
 class Unit:
@@ -66,6 +67,7 @@ class FunctionContract:
     loops = {}
     callee_contracts = ()      # contracts assumed for callees while verifying this body
     skip_fields = ()
+    compare_state_on_raise = True   # False: the state of the arguments after a raise is left unspecified by the contract
 
     def pre(self, E, *args, **kw):
         return True
@@ -96,7 +98,8 @@ class FunctionContract:
                 return
             if not real.ok:
                 E.prove('post:raises-agree', real.exc.cls == ref.exc.cls, real=real.exc.cls, spec=ref.exc.cls)
-                E.prove('post:state-on-raise', E.same_state(c.observe(E, args, kw, None), c.observe(E, a2, k2, None), skip=c.skip_fields))
+                if c.compare_state_on_raise:
+                    E.prove('post:state-on-raise', E.same_state(c.observe(E, args, kw, None), c.observe(E, a2, k2, None), skip=c.skip_fields))
                 return
             E.prove('post:raises-agree', True)
             E.prove('post:result', E.same_state(real.value, ref.value, skip=c.skip_fields))
